@@ -64,6 +64,32 @@ CLAIMED = {
         note="TimeZone (subclass) excluded as the property says; decimal components compared exactly only when binary-exact.",
         technique="Coq algebraic proofs over Q + correspondence on a duration pool",
         design="7 C11"),
+    "C12": dict(
+        text=("Theorems (Props/C12.v), for exact intervals of positive length, any valid anchor, unbounded or n >= 2: each of the three "
+              "notations constructs; the first k iterated points are exactly min(k, n) points whose Spec instants are anchor + i*len "
+              "(anchor - i*len for unbounded duration/end), valid and written like the anchor; bounded duration/end ends on the given "
+              "end; one repetition or a zero interval yields exactly the anchor; the three notations of one finite series are ==; for "
+              "any interval (nominal included) consecutive points differ by one application of the interval. The full-strength claim "
+              "for bounded nominal intervals is refuted by a vm_compute witness (known finding F4)."),
+        note="min_point/max_point are left None (the parser never sets them); generators are modelled as 'take the first k'.",
+        technique="Coq proof by induction over iteration on top of the C01/C02 theorems + correspondence + Spec oracle",
+        design="7 C12"),
+    "C13": dict(
+        text=("Theorems (Props/C13.v) for start-anchored exact recurrences: bounds test = instant between the ends; get_is_valid true iff the "
+              "probe's instant is start + i*len for an index in range (and the scan answers given enough fuel); r[i] is the i-th point; "
+              "get_next/get_prev give the adjacent instant or None past the ends; get_first_after (whole-second interval and probe) is the "
+              "earliest later member, the first member before the series, None past a bounded end."),
+        note="Scans carry explicit fuel in the model (3000 in the correspondence); month/year intervals are covered by the correspondence and oracle only.",
+        technique="Coq proof on top of C12 + correspondence with probes re-zoned/re-expressed by the implementation + oracle from iteration",
+        design="7 C13"),
+    "C14": dict(
+        text=("Theorems (Props/C14.v): r + x for exact x keeps repetitions and interval and moves the anchors by len x (the end anchor up to "
+              "spelling), so every iterated point moves by exactly len x; (r + x) - x == r; == is component-wise; equal exact recurrences "
+              "iterate the same instants. Correspondence incl. single-point recurrences of all notations, either operand order, crafted "
+              "unequal/equal pairs, and the str/parse round trip (implementation-side oracle only)."),
+        note="The text round trip is checked on the implementation only (no recurrence parser model yet); hashes are checked for == implies equal hash on the implementation.",
+        technique="Coq proof (10-shape constructor inversion) + correspondence + implementation-side round-trip oracle",
+        design="7 C14"),
     "C18": dict(
         text=("Theorems (Props/C18.v): for every whole-minute offset (no bound) the (hours, minutes) split is exact with both parts carrying "
               "the sign; DST selection rule; the three text forms denote the pair (finite reflection over the whole legal box, Z for "
